@@ -748,6 +748,21 @@ METHOD_SIG = {'rename': [], 'drop': ['labels'], 'pop': ['item'], 'get': ['key', 
               'rank': [], 'append': ['object'], 'get_loc': ['key'], 'replace': ['old', 'new'], 'startswith': ['prefix'], 'endswith': ['suffix']}
 
 
+PURE_STR_METHODS = {'split', 'rsplit', 'replace', 'startswith', 'endswith', 'upper', 'lower', 'strip', 'lstrip', 'rstrip', 'capitalize', 'title', 'partition', 'rpartition',
+                    'removeprefix', 'removesuffix', 'find', 'rfind', 'count', 'isdigit', 'isalpha'}
+
+
+def _py_to_term(v):
+    if isinstance(v, (str, bool, int)):
+        return C(v)
+    if isinstance(v, (list, tuple)):
+        items = [_py_to_term(x) for x in v]
+        if any(x is None for x in items):
+            return None
+        return ('list' if isinstance(v, list) else 'tuple', tuple(items))
+    return None
+
+
 def method(fr, recv, recv_node, name, args, kw, extra, n):
     ctx = fr.ctx
     if name in METHOD_SIG and METHOD_SIG[name]:
@@ -818,6 +833,15 @@ def method(fr, recv, recv_node, name, args, kw, extra, n):
             (tag == 'gamma' and any(x[0] == 'plotaxes' for x in T.walk(recv))):
         ctx.event('call', 'ax.' + name, (recv,) + tuple(args), kw, guard=guard, loops=loops, where=where)
         return T.call('ax.' + name, (recv,) + tuple(args), kw)
+    # ---- methods of a constant string with constant arguments: evaluated (pure)
+    if tag == 'const' and isinstance(recv[1], str) and name in PURE_STR_METHODS and not kw and all(T.isconst(a) and not isinstance(a[1], bool) or T.isconst(a) for a in args):
+        try:
+            val = getattr(recv[1], name)(*[a[1] for a in args])
+        except Exception:
+            val = None
+        t = _py_to_term(val)
+        if t is not None:
+            return t
     # ---- value preserving
     if name == 'to_numpy':
         return recv if term_kind(fr, recv) == 'ndarray' else ('nd', recv)      # same values, python type becomes ndarray
@@ -899,6 +923,14 @@ def method(fr, recv, recv_node, name, args, kw, extra, n):
             rebind(('listappend', recv, a0, rel))
         ctx.event('mutate', 'append', (recv, a0), guard=guard, loops=loops, where=where, extra={'target': ast.unparse(recv_node)})
         return NONE
+    if name == 'extend' and a0 is not None:
+        if tag == 'list' and a0[0] in ('list', 'tuple') and guard == TRUE and not fr.loops:
+            rebind(('list', recv[1] + a0[1]))
+        else:
+            # an extension the model cannot place element by element: the list is no longer a known display
+            rebind(T.call('seqcat', (recv, a0)) if guard == TRUE else T.gamma(guard, T.call('seqcat', (recv, a0)), recv))
+        ctx.event('mutate', 'extend', (recv, a0), guard=guard, loops=loops, where=where, extra={'target': ast.unparse(recv_node)})
+        return NONE
     # ---- strings
     if name in ('startswith', 'endswith') and a0 is not None:
         if T.isconst(recv) and T.isconst(a0):
@@ -919,6 +951,9 @@ def method(fr, recv, recv_node, name, args, kw, extra, n):
         return ('records', recv)
     if name == 'rank':
         return T.call('rank', (recv,), kw)
+    if name == 'rename' and 'columns' not in kw and kw.get('axis') in (C('columns'), C(1)) and (a0 is not None or 'mapper' in kw):
+        # rename(mapper, axis='columns') == rename(columns=mapper)
+        kw = dict({k: v for k, v in kw.items() if k not in ('axis', 'mapper')}, columns=a0 if a0 is not None else kw['mapper'])
     if name == 'rename' and 'columns' in kw:
         m = kw['columns']
         inplace = kw.get('inplace') == TRUE
